@@ -26,6 +26,9 @@ def runCast (conv : K → K') (grp : String) (dbg : Bool) (a : List K) : Option 
   | "SE_2_3", [tx, ty, tz, x, y, z, w, vx, vy, vz] =>
     some ((SE23.make dbg (V3.conv conv ⟨tx, ty, tz⟩) (Quat.conv conv ⟨x, y, z, w⟩).normalized
       (V3.conv conv ⟨vx, vy, vz⟩)).map SE23.toList)
+  | "SGal3", [tx, ty, tz, x, y, z, w, vx, vy, vz, t] =>
+    some ((SGal3.make dbg (V3.conv conv ⟨tx, ty, tz⟩) (Quat.conv conv ⟨x, y, z, w⟩).normalized
+      (V3.conv conv ⟨vx, vy, vz⟩) (conv t)).map SGal3.toList)
   | g, a =>
     if g.startsWith "R" ∧ (g.drop 1).toString.toNat? = some a.length then some (.ok (a.map conv)) else none
 
